@@ -6,6 +6,7 @@ package main
 
 import (
 	"bytes"
+	"context"
 	"crypto/sha1"
 	"encoding/json"
 	"fmt"
@@ -230,7 +231,7 @@ func buildACV(cache, work string) (string, error) {
 	return bin, nil
 }
 
-var needsACV = map[string]bool{"C18": true, "C04": true, "C12": true}
+var needsACV = map[string]bool{"C18": true, "C04": true, "C12": true, "C05": true, "C03": true}
 
 func realMain(id, tier, replay string, workers int, seed int64, cache, work string) int {
 	t0 := time.Now()
@@ -297,12 +298,30 @@ func realMain(id, tier, replay string, workers int, seed int64, cache, work stri
 			myExpiries := 0
 			for attempt := 0; attempt < 50; attempt++ {
 				of := filepath.Join(work, fmt.Sprintf("out-%d-%d.json", s, attempt))
-				cmd := exec.Command(bin, "run", id, tier, strconv.Itoa(s), strconv.Itoa(workers), strconv.FormatInt(from, 10), of)
+				// hard limit per worker process: the soft deadline is cooperative, and a harness thread stuck inside the
+				// controlled scheduler (code under test blocking on a channel the scheduler does not model) would never
+				// reach it; such a worker is killed and the run reported as not exhaustive
+				ctx, cancel := context.WithTimeout(context.Background(), time.Duration(dl+900)*time.Second)
+				cmd := exec.CommandContext(ctx, bin, "run", id, tier, strconv.Itoa(s), strconv.Itoa(workers), strconv.FormatInt(from, 10), of)
 				cmd.Env = wenv
 				var eb bytes.Buffer
 				cmd.Stderr = &eb
 				cmd.Stdout = &eb
 				err := cmd.Run()
+				timedOut := ctx.Err() == context.DeadlineExceeded
+				cancel()
+				if timedOut {
+					mu.Lock()
+					hangs = append(hangs, fmt.Sprintf("shard %d: worker process killed at the hard limit of %d s (no verdict for the rest of the shard)", s, dl+900))
+					if b, rerr := os.ReadFile(of); rerr == nil {
+						var wo WorkerOut
+						if json.Unmarshal(b, &wo) == nil {
+							outs = append(outs, wo)
+						}
+					}
+					mu.Unlock()
+					return
+				}
 				var wo WorkerOut
 				b, rerr := os.ReadFile(of)
 				if rerr == nil {
